@@ -358,6 +358,7 @@ class Run:
         self.model_checked = 0
         self.extra = {}
         self.rng = random.Random(seed)
+        self.replaying = False
 
     def case(self, key, nontrivial, sample=None, classes=()):
         self.evaluations += 1
@@ -372,6 +373,31 @@ class Run:
 
     def fail(self, kind, case, detail):
         self.failures.append(Failure(kind, case, detail))
+
+    def _widen(self):
+        """The model no longer corresponds to the implementation but no input was found on
+        which the property itself fails: search further (other seeds, then the thorough
+        generator) for at most about five minutes before giving up."""
+        if os.environ.get("VERIF_NO_WIDEN") or self.replaying:
+            return None
+        t0 = time.time()
+        plan = [("quick", self.seed + 1), ("quick", self.seed + 2), ("quick", self.seed + 3),
+                ("thorough", self.seed + 4)]
+        for tier, seed in plan:
+            if time.time() - t0 > 120:
+                break
+            env = dict(os.environ, VERIF_NO_WIDEN="1", VERIF_SEED=str(seed), VERIF_TIER=tier,
+                       VERIF_EVIDENCE_SUFFIX=".widen")
+            try:
+                proc = subprocess.run([os.path.join(VERIF, "check"), self.pid, "--tier", tier],
+                                      capture_output=True, text=True, env=env,
+                                      timeout=max(30, 200 - (time.time() - t0)))
+            except subprocess.TimeoutExpired:
+                break
+            for line in proc.stdout.splitlines():
+                if line.startswith("VIOLATION") and "no-failing-input-found" not in line:
+                    return line
+        return None
 
     def finish(self, known=None):
         """Classify failures, write evidence, print verdict lines, return exit code."""
@@ -405,6 +431,9 @@ class Run:
                            "tier": self.tier, "case": f.case, "detail": f.detail,
                            "others": len(unlisted) - 1}, fd, indent=1, default=str)
             lines.append(f"VIOLATION property={self.pid} replay={path}")
+            code = 1
+        elif model and (widened := self._widen()) is not None:
+            lines.append(widened)
             code = 1
         elif model:
             f = model[0]
@@ -451,7 +480,8 @@ class Run:
             "known_findings_seen": sorted(seen_known),
         }
         os.makedirs(os.path.join(VERIF, "evidence"), exist_ok=True)
-        with open(os.path.join(VERIF, "evidence", f"{self.pid}.json"), "w") as fd:
+        suffix = os.environ.get("VERIF_EVIDENCE_SUFFIX", "")
+        with open(os.path.join(VERIF, "evidence", f"{self.pid}.json{suffix}"), "w") as fd:
             json.dump(evidence, fd, indent=1, default=str)
         for line in lines:
             print(line)
